@@ -105,6 +105,8 @@ func vfC17IsWaiting(st string) bool {
 type vfC17Thr struct {
 	kind    byte
 	armed   atomic.Bool
+	armMgr  atomic.Int32 // manager park points still armed: vfC17MgrAuth | vfC17MgrSess | vfC17MgrUpload
+	parkSeq atomic.Int64 // number of times this thread has parked (a released thread may park again at once)
 	parked  atomic.Bool
 	done    atomic.Bool
 	goid    atomic.Int64
@@ -127,11 +129,67 @@ func vfC17HookCallback(point string) {
 
 func (t *vfC17Thr) park() {
 	if t.armed.Load() {
+		t.parkSeq.Add(1)
 		t.parked.Store(true)
 		<-t.release
 		t.armed.Store(false)
 		t.parked.Store(false)
 	}
+}
+
+// ------------------------------------------------------------------------------------------
+// the UserManager seam: userPanel.Manager is an interface, so the engine hands the panel a wrapper
+// around the real localManager whose AuthenticateUser / AuthoriseNewSession / UploadStatus park the
+// calling scenario thread (when it is armed for that point) BEFORE the real call is made.  A thread
+// parked there holds whatever locks the code holds across the manager call: that is how "GetUser
+// overlapping GetUser" and "commitUpdate's upload in flight while the queue is used" become
+// scenario steps instead of lucky timing.
+
+const (
+	vfC17MgrAuth   = int32(1) // step suffix 'a': inside Manager.AuthenticateUser (GetUser)
+	vfC17MgrSess   = int32(2) // step suffix 's': inside Manager.AuthoriseNewSession (GetSession)
+	vfC17MgrUpload = int32(4) // step suffix 'u': inside Manager.UploadStatus (commitUpdate)
+)
+
+func (t *vfC17Thr) parkMgr(bit int32) {
+	for {
+		old := t.armMgr.Load()
+		if old&bit == 0 {
+			return
+		}
+		if t.armMgr.CompareAndSwap(old, old&^bit) {
+			break
+		}
+	}
+	t.parkSeq.Add(1)
+	t.parked.Store(true)
+	<-t.release
+	t.parked.Store(false)
+}
+
+func vfC17ParkMgr(bit int32) {
+	if v, ok := vfC17ByGoid.Load(vfC17Goid()); ok {
+		v.(*vfC17Thr).parkMgr(bit)
+	}
+}
+
+type vfC17Mgr struct {
+	usermanager.UserManager
+}
+
+func (m *vfC17Mgr) AuthenticateUser(UID []byte) (int64, int64, error) {
+	vfC17ParkMgr(vfC17MgrAuth)
+	return m.UserManager.AuthenticateUser(UID)
+}
+
+func (m *vfC17Mgr) AuthoriseNewSession(UID []byte, ainfo usermanager.AuthorisationInfo) error {
+	vfC17ParkMgr(vfC17MgrSess)
+	return m.UserManager.AuthoriseNewSession(UID, ainfo)
+}
+
+func (m *vfC17Mgr) UploadStatus(uploads []usermanager.StatusUpdate) ([]usermanager.StatusResponse, error) {
+	vfC17ParkMgr(vfC17MgrUpload)
+	return m.UserManager.UploadStatus(uploads)
 }
 
 // ------------------------------------------------------------------------------------------
@@ -252,6 +310,7 @@ type vfC17Rig struct {
 	threads  []*vfC17Thr
 	patched  bool
 	hang     string
+	nextMgrArms int32 // manager park points of the thread the current step is about to spawn
 }
 
 func vfC17UID(u int) []byte {
@@ -316,7 +375,7 @@ func vfC17NewRig(dir string, tag string, now int64, users string) (*vfC17Rig, er
 	}
 	// exactly what MakeUserPanel builds, without starting regularQueueUpload
 	r.panel = &userPanel{
-		Manager:          m,
+		Manager:          &vfC17Mgr{m},
 		activeUsers:      make(map[[16]byte]*ActiveUser),
 		usageUpdateQueue: make(map[[16]byte]*usagePair),
 		uploadInterval:   defaultUploadInterval,
@@ -335,6 +394,8 @@ func (r *vfC17Rig) noteUID(u int) {
 
 func (r *vfC17Rig) close() {
 	for _, t := range r.threads {
+		t.armed.Store(false)
+		t.armMgr.Store(0)
 		if t.parked.Load() {
 			select {
 			case t.release <- struct{}{}:
@@ -361,6 +422,8 @@ func vfC17SeshConfig() mux.SessionConfig {
 func (r *vfC17Rig) spawn(kind byte, armed bool, body func(t *vfC17Thr)) *vfC17Thr {
 	t := &vfC17Thr{kind: kind, release: make(chan struct{})}
 	t.armed.Store(armed)
+	t.armMgr.Store(r.nextMgrArms)
+	r.nextMgrArms = 0
 	t.goid.Store(-1)
 	r.threads = append(r.threads, t)
 	go func() {
@@ -418,13 +481,20 @@ func (r *vfC17Rig) dispatch(t *vfC17Thr, uid int, sid uint32) {
 			vfC17SesM.Unlock()
 			t.result = fmt.Sprintf("ok%dn", k)
 		} else {
-			vfC17SesM.Lock()
-			for i, s := range r.sessions {
-				if s.sesh == sesh {
-					k = i
+			for try := 0; try < 200000 && k < 0; try++ {
+				vfC17SesM.Lock()
+				for i, s := range r.sessions {
+					if s.sesh == sesh {
+						k = i
+					}
+				}
+				vfC17SesM.Unlock()
+				if k < 0 {
+					// the creator appends to r.sessions after its GetSession has returned: when two
+					// dispatches overlap, the joiner can get here first
+					runtime.Gosched()
 				}
 			}
-			vfC17SesM.Unlock()
 			t.result = fmt.Sprintf("ok%de", k)
 		}
 		return
@@ -432,6 +502,10 @@ func (r *vfC17Rig) dispatch(t *vfC17Thr, uid int, sid uint32) {
 }
 
 var vfC17SesM sync.Mutex
+
+// quiescent moments (all threads finished) of the scenario just run at which a live session was
+// unreachable: " <step index>:<k>,<k>..." per moment
+var vfC17OrphAt string
 
 func (r *vfC17Rig) ses(k int) *vfC17Ses {
 	vfC17SesM.Lock()
@@ -658,8 +732,27 @@ func (r *vfC17Rig) unreachableLive() []int {
 // step executes one scenario step and returns the step as it should be replayed by the model
 // (traffic steps get the byte counts the connections actually saw)
 func (r *vfC17Rig) step(st string) string {
-	hooked := strings.HasSuffix(st, "h")
-	body := strings.TrimSuffix(st, "h")
+	// D / U / M / R steps may carry park-point suffixes: h (the vhook schedule point), a / s / u
+	// (inside Manager.AuthenticateUser / AuthoriseNewSession / UploadStatus), in any combination
+	body := st
+	hooked := false
+	var mgrArms int32
+	if st != "" && strings.IndexByte("DUMR", st[0]) >= 0 {
+		for len(body) > 1 && strings.IndexByte("hasu", body[len(body)-1]) >= 0 {
+			switch body[len(body)-1] {
+			case 'h':
+				hooked = true
+			case 'a':
+				mgrArms |= vfC17MgrAuth
+			case 's':
+				mgrArms |= vfC17MgrSess
+			case 'u':
+				mgrArms |= vfC17MgrUpload
+			}
+			body = body[:len(body)-1]
+		}
+	}
+	r.nextMgrArms = mgrArms
 	ints := func(s string) []int {
 		var res []int
 		for _, f := range strings.Split(s, ".") {
@@ -697,17 +790,22 @@ func (r *vfC17Rig) step(st string) string {
 		r.spawn('M', false, func(t *vfC17Thr) { r.panel.commitUpdate() })
 	case 'R':
 		r.spawn('R', hooked, func(t *vfC17Thr) { r.panel.updateUsageQueue(); r.panel.commitUpdate() })
-	case 'G':
+	case 'G', 'g':
+		// G<t>: release thread t from the point it is parked at; a thread that is not parked is
+		// disarmed (it will not stop any more).  g<t>: release if parked, otherwise nothing.
 		ti, _ := strconv.Atoi(body[1:])
 		if ti < len(r.threads) {
 			t := r.threads[ti]
 			if t.parked.Load() {
+				seq := t.parkSeq.Load()
 				t.release <- struct{}{}
-				for t.parked.Load() {
+				// until it has left that park point (it may park at its next one right away)
+				for t.parked.Load() && t.parkSeq.Load() == seq {
 					runtime.Gosched()
 				}
-			} else {
+			} else if body[0] == 'G' {
 				t.armed.Store(false)
+				t.armMgr.Store(0)
 			}
 		}
 	case 'T':
@@ -775,11 +873,26 @@ func vfC17RunScenario(dir, id string, now int64, users string, steps []string) (
 	}
 	SetVerifHook(vfC17HookCallback)
 	defer SetVerifHook(nil)
-	for _, st := range steps {
+	vfC17OrphAt = ""
+	for i, st := range steps {
 		replay = append(replay, r.step(st))
 		obs = append(obs, r.obs())
 		if r.hang != "" {
 			break
+		}
+		// "at every quiescent moment": when every thread has finished, which live sessions can the
+		// panel not reach?  (the check at the end of the scenario misses a loss that a later
+		// CloseSession of the lost session happens to clean up)
+		quiet := true
+		for _, t := range r.threads {
+			if !t.done.Load() {
+				quiet = false
+			}
+		}
+		if quiet {
+			if o := r.unreachableLive(); len(o) > 0 {
+				vfC17OrphAt += fmt.Sprintf(" %d:%s", i, strings.Trim(strings.Join(strings.Fields(fmt.Sprint(o)), ","), "[]"))
+			}
 		}
 	}
 	anyParked := false
@@ -801,9 +914,20 @@ func vfC17RunScenario(dir, id string, now int64, users string, steps []string) (
 	}
 	hang = r.hang
 	vfC17SesM.Lock()
+	// the last two fields number the distinct valves / ActiveUser records of the scenario in order of
+	// first appearance: all live sessions of one limited user must show one valve and one record
+	valveIdx := map[mux.Valve]int{}
+	recIdx := map[*ActiveUser]int{}
 	for k, s := range r.sessions {
+		if _, ok := valveIdx[s.sesh.Valve]; !ok {
+			valveIdx[s.sesh.Valve] = len(valveIdx)
+		}
+		if _, ok := recIdx[s.user]; !ok {
+			recIdx[s.user] = len(recIdx)
+		}
 		s.conn.mu.Lock()
-		sesInfo += fmt.Sprintf(" %d:%d:%s:%s:%d:%d:%d", k, s.uid, vfC17B(s.sesh.IsClosed()), vfC17B(s.bornDead), s.conn.readN, s.conn.written, s.conn.notice)
+		sesInfo += fmt.Sprintf(" %d:%d:%s:%s:%d:%d:%d:%d:%d", k, s.uid, vfC17B(s.sesh.IsClosed()), vfC17B(s.bornDead), s.conn.readN, s.conn.written, s.conn.notice,
+			valveIdx[s.sesh.Valve], recIdx[s.user])
 		s.conn.mu.Unlock()
 	}
 	vfC17SesM.Unlock()
@@ -868,6 +992,9 @@ func vfC17RunFile(t *testing.T, special func(dir, line string) string) {
 		fmt.Fprintf(fo, "#ses %s%s\n", f[0], sesInfo)
 		if len(orphans) > 0 {
 			fmt.Fprintf(fo, "#orph %s %s\n", f[0], strings.Trim(strings.Join(strings.Fields(fmt.Sprint(orphans)), ","), "[]"))
+		}
+		if vfC17OrphAt != "" {
+			fmt.Fprintf(fo, "#orphat %s%s\n", f[0], vfC17OrphAt)
 		}
 		if len(blocked) > 0 {
 			stuck++
